@@ -47,6 +47,19 @@ def _try(fn):
 
 def check_reopen(task):
     """Returns (violation | None, number of reopen comparisons)."""
+    try:
+        return _check_reopen(task)
+    except env.StepTimeout:
+        raise
+    except Exception as e:
+        import traceback
+
+        tb = traceback.extract_tb(e.__traceback__)
+        where = next((f"{fr.name}:{fr.lineno}" for fr in tb if fr.filename.endswith("c03.py")), "?")
+        return _viol("A", "reopen-raised", f"close/reopen/discard sequence raised {type(e).__name__}: {e} (harness step {where})", cfg=task[0], cls=treeexp.CFGS[task[0]]["kind"], history=task[1]), 0
+
+
+def _check_reopen(task):
     cfg_name, hist = task
     cfg = treeexp.CFGS[cfg_name]
     kind = cfg["kind"]
@@ -89,9 +102,12 @@ def check_reopen(task):
                 return _viol("A", "harness-nondet", "rebuilding the same history gave a different view", **inp), n
         rec.close()  # commits
         h0 = ih5lib.dir_hashes(d)
-        files = [Path(d) / f for f in sorted(h0) if f.endswith(".ih5")]
+        files = [Path(d) / f for f in sorted((f for f in h0 if f.endswith(".ih5")), key=lambda f: int(f.split(".p")[1].split(".")[0]) if ".p" in f else 0)]
         forms = [("name", os.path.join(d, "rec"))]
-        forms += [("list", list(p)) for p in itertools.permutations(files)]
+        if len(files) <= 4:
+            forms += [("list", list(p)) for p in itertools.permutations(files)]
+        else:  # long chains (directed cases): a few fixed orders instead of n! permutations
+            forms += [("list", list(files)), ("list", list(files[1:]) + [files[0]]), ("list", sorted(files, key=lambda p: p.name[::-1])), ("list", list(reversed(files)))]
         for form, arg in forms:
             n += 1
             r = cls(arg, "r")
@@ -444,6 +460,13 @@ def run(tier, seed):
             hs, tr = gen_states(genpool, name, depth)
             fam[name] = {"states": len(hs), "transitions": tr, "depth": depth, "max_containers": cfgs[name]["max_containers"]}
             tasks += [(name, h) for h in hs]
+        # directed: chains of 12 containers (patch index order differs from file name order from p10 on)
+        a, b, c, k = treeexp.spell(seed)
+        long_hist = []
+        for i in range(11):
+            long_hist += [["set" if i % 3 == 0 else "sa", f"/{a}{i}" if i % 3 == 0 else "/", *(([k + str(i)]) if i % 3 else []), "abs"], ["B"]]
+        long_hist += [["del", f"/{a}0", "abs"], ["set", f"/{b}", "abs"]]
+        tasks += [("A", long_hist), ("M", long_hist)]
         resA = pool.map("check_reopen", tasks, chunk=8, item_deadline=60)
         reopen_cmp = 0
         for t, r in zip(tasks, resA):
